@@ -1,3 +1,4 @@
 import GradysProofs.Properties.C01
 import GradysProofs.Properties.C02
 import GradysProofs.Properties.C03
+import GradysProofs.Properties.C16
